@@ -187,6 +187,13 @@ def _f_tasks():
     for c in CONTRACTS:
         ex = INLINE_FOR.get(c.target)
         out.append(ContractTask(c, (lambda ex=ex: regf(exclude=ex)) if ex else regf))
+    # "with matching codes every message is delivered; with different codes nothing is": what Receive and Order do with an
+    # inbound message (authentic under the key of the claimed label => handed on unchanged, else scared) is under contract in
+    # C02's / C03's modules and is part of this property as well
+    from . import c02, c03
+    out += [t for t in c02._f_tasks() if t.contract.target.endswith(("Receive.got_message", "decrypt_data", "encrypt_data"))]
+    out += [t for t in c03.tasks() if getattr(t, "contract", None) is not None and
+            t.contract.target.endswith(("Order.got_message", "Receive.got_message_good", "Order.__attrs_post_init__"))]
     return out
 
 
